@@ -5,6 +5,7 @@ hypothesis on the residues. Helper lemmas: Ymq/Lemmas/IntMatEchPTotal.lean.
 -/
 import Ymq.Props.C19
 import Ymq.Lemmas.IntMatEchPTotal
+import Ymq.Lemmas.IntMatEchRefA
 
 namespace Ymq.C19
 open Ymq.IntMat
@@ -107,5 +108,54 @@ example : ∃ modp : List Nat, crtDense Ymq.Arith.invMod64 modp [101, 103] = som
     (by rw [hdet]; decide) (by rw [hdet]; decide)
   rw [hdet] at h
   exact ⟨modp, h⟩
+
+/-! ### towards the refinement `Ech → EchP` (production model in Montgomery form) -/
+
+open Ymq.Mg64 in
+/-- **`mg_redc` on the sum of 8 products** (`GFpEchelonBuilder::submul_n`, the block path of `add`).
+Beyond its documented domain `x < n·2^64`, for `x < 2·n·2^64` and `n ≤ 2^62` the model of `mg_redc`
+reaches no panic site and returns `r < 2n` with `r·2^64 ≡ x (mod n)`: one conditional subtraction
+(`if mw >= p { mw - p }`, fix ca90ec8) then gives the reduced residue. The sum of 8 products of residues
+is below `8(p-1)^2 ≤ 2·p·2^64` exactly when `p ≤ 2^62`: this is the bound behind fix a30f559 (block
+path only for `p < 2^62`). -/
+theorem mg_redc_wide (n ninv x : Nat) (hn : 0 < n) (hnW : n ≤ 2 ^ 62) (hninv : (n * ninv + 1) % W = 0)
+    (hx : x < 2 * n * W) :
+    ∃ r, mgRedc n ninv x = some r ∧ r < 2 * n ∧ r * W % n = x % n :=
+  mgRedc_wide n ninv x hn (by have : W = 4 * 2 ^ 62 := by decide
+                              omega) hninv hx
+
+open Ymq.Mg64 in
+/-- non-vacuity: `n = 7`, `x = 13·2^64 + 5 ≥ n·2^64` -/
+example : (7 * 10540996613548315209 + 1) % W = 0 ∧ 7 * W ≤ 13 * W + 5 ∧ 13 * W + 5 < 2 * 7 * W ∧
+    ∃ r, mgRedc 7 10540996613548315209 (13 * W + 5) = some r ∧ r < 14 ∧ r * W % 7 = (13 * W + 5) % 7 := by
+  refine ⟨by decide, by decide, by decide, ?_⟩
+  exact mg_redc_wide 7 _ _ (by decide) (by decide) (by decide) (by decide)
+
+open Ymq.Mg64 in
+/-- **One sequential elimination step in Montgomery form is the plain step** — PARTIAL refinement
+`Ech → EchP`: for an odd modulus `1 < p < 2^63` with valid Montgomery constants, rows of reduced
+residues and a non-zero reduced multiplier, `GFpEchelonBuilder::submul` on the Montgomery forms
+returns (no panic) the Montgomery form of `v - m·w mod p` (`rowSubMul`, the step of the reference
+builder `EchP`). Also proved as lemmas (Ymq/Lemmas/IntMatEchRefA.lean): `blockVs_spec` — the 8
+multipliers of the block path satisfy `u_a = v[c_a] - Σ_{b<a} u_b·basis[i+b][c_a]` and the triangular
+update reaches no panic site — and `EchCtx.subMulC_eq` (the closure `submul`). Missing for the full
+refinement `detModP = detModPlain`: the column loop of `submul_n` on top of `mg_redc_wide`, the
+uniqueness argument "block = 8 sequential steps" from the echelon form, and the bookkeeping of
+`add`/`div`/`det` (conversions in and out of Montgomery form). The production model and the
+reference model are both compared with the code by the pipeline (ops `im_echelon`, `im_detp`,
+`im_echelon_plain`, `im_detp_plain`, `im_ech_raw`). -/
+theorem echelon_submul_montgomery_partial (p pinv : Nat) (h : MontOk p pinv) (hp63 : p < 2 ^ 63) (E : Ech)
+    (hEp : E.p = p) (hEi : E.pinv = pinv) (v w : List Nat) (m : Nat) (hl : v.length = w.length)
+    (hv : ∀ x ∈ v, x < p) (hw : ∀ x ∈ w, x < p) (hm : m < p) (hm0 : m ≠ 0) :
+    E.submul (v.map (mform p)) (w.map (mform p)) (mform p m) = some ((rowSubMul p v w m).map (mform p)) :=
+  Ech.submul_mform h (by have : W = 2 * 2 ^ 63 := by decide
+                         omega) E hEp hEi v w m hl hv hw hm hm0
+
+open Ymq.Mg64 in
+/-- non-vacuity: `p = 7` -/
+example : ∃ E : Ech, MontOk 7 10540996613548315209 ∧ E.p = 7 ∧
+    E.submul ([3, 5].map (mform 7)) ([1, 4].map (mform 7)) (mform 7 2) = some ((rowSubMul 7 [3, 5] [1, 4] 2).map (mform 7)) :=
+  ⟨{ p := 7, pinv := 10540996613548315209, r := 2, r2 := 4, indices := [], basis := [], factors := [] },
+    ⟨by decide, by decide, by decide, by decide⟩, rfl, by decide⟩
 
 end Ymq.C19
